@@ -40,8 +40,8 @@ claims = {
          "BOUNDED stand-in (not a proof): the real pathParameters/PathParameters are executed on every path over {/, {, }, a, b} up to length 7 (thorough: 9) and compared with the declarative split; no panic, empty/repeated names rejected.",
          "Bounded by alphabet and length (stated in evidence coverage.rule). Project-wide binding of Path properties to interactions is not claimed.",
          "bounded exhaustive execution of the real functions against an executable contract (stand-in for a string-theory proof)", "DESIGN.md 4.C13"),
- "C15": ("exploration",
-         "BOUNDED stand-in (not a proof): the real core.description and catalog.Annotation are executed on every text over a 7-symbol alphabet up to length 6 (thorough: 8): idempotence, shape of the result, bare == parenthesised, Annotation normal form.",
+ "C15": ("proof",
+         "Proof: addDescription accepts a description only if the normalised text is non-empty (blank descriptions are rejected in either spelling; the normaliser is an assumed pure function there). BOUNDED stand-in (labelled in evidence.coverage.bounded): the real core.description and catalog.Annotation are executed on every text over a 7-symbol alphabet up to length 6 (thorough: 8): idempotence, shape of the result, bare == parenthesised, Annotation normal form.",
          "Bounded by alphabet and length; one known finding class (idempotence when the result is itself parenthesised).",
          "bounded exhaustive execution of the real functions against an executable contract", "DESIGN.md 4.C15"),
  "C16": ("proof",
@@ -52,8 +52,8 @@ claims = {
          "Proof: safety and frame of directive.unescapeParameter (single pass), quoted-parameter scanner states under the step-function contract. BOUNDED stand-in: unescape(quote(x)) == x and unescape(x) == x for quote-free x, for every x over {\\, \", a, space, #, /, tab} up to length 5 (thorough: 6) on the real function.",
          "Round trip is bounded (labelled so in evidence.coverage.bounded); the scanner/normaliser agreement end-to-end is not claimed.",
          "contract-based deductive verification + bounded exhaustive execution for the round trip", "DESIGN.md 4.C17"),
- "C19": ("exploration",
-         "BOUNDED stand-in (not a proof): tagName(pathTagTitle(p)) is injective on first path segments over an 8-symbol alphabet up to length 4 (thorough: 5); later segments do not influence the title.",
+ "C19": ("proof",
+         "Proof: a declared tag's title is its annotation or, lacking one, its name (AddTag, collectTag, NewTag); a path tag reuses the tag already registered under its name. BOUNDED stand-in (labelled in evidence.coverage.bounded): tagName(pathTagTitle(p)) is injective on first path segments over an 8-symbol alphabet up to length 4 (thorough: 5); later segments do not influence the title.",
          "Bounded by alphabet and length. Tags precedence (explicit Tags, URL Tags, automatic) is not yet under contract.",
          "bounded exhaustive execution of the real functions", "DESIGN.md 4.C19"),
  "C14": ("proof",
